@@ -11,7 +11,10 @@
 // borrows); the driver re-checks every sequence against the Lean model itself.
 //
 // Line format (calls separated by " ; "):
-//   SEQ ; <fn> <tok>… => <ret> m<0|1> R<ids|-> a<id|-> s<first:res|-> M<ids|-> O<0|1> ; … ; END <ok|leak@where|crash:kind@where|hang@>
+//   SEQ ; <fn> <tok>… => <ret> m<0|1> R<ids|-> a<id|-> s<first:res|-> M<ids|-> O<0|1> ; … ; END <ok|leak@where:path@fn|crash:kind@where|hang@>
+//   (leak: where = allocating GEOS function "<" its GEOS caller; a sequence that ends with a leak report is run a second time with every allocation
+//    tagged by the running call (sanitizer malloc hook); the report then names the call `fn` that allocated the leaked object and whether that call
+//    had reported an error (path = on-error-path) or returned normally (on-normal-path); outside-calls / unattributed otherwise)
 //   (O1: an index argument was beyond the size of the object it indexes)
 //   Interruption is part of the legal API: the pseudo call `GEOS_interruptRegisterCallback i:<k>` arms the NEXT call of the sequence:
 //   a callback registered with GEOS_interruptRegisterCallback counts the checkpoint polls of that call and calls GEOS_interruptRequest()
@@ -44,7 +47,19 @@ using namespace vh;
 extern "C" const char* __asan_default_options() {
     return "exitcode=86:detect_leaks=1:allocator_may_return_null=1:max_allocation_size_mb=1500:handle_abort=1:detect_stack_use_after_return=0:malloc_context_size=12";
 }
-extern "C" const char* __lsan_default_options() { return "exitcode=23:print_suppressions=0"; }
+extern "C" int __lsan_do_recoverable_leak_check();
+extern "C" int __sanitizer_install_malloc_and_free_hooks(void (*)(const volatile void*, size_t), void (*)(const volatile void*));
+// leak attribution (second pass only): every allocation is tagged with the number of the call that was running (-2: harness code between calls)
+struct AllocRec { uintptr_t p; long call; };
+static const size_t ATAB = (size_t) 1 << 21;
+static AllocRec g_atab[ATAB]; static long g_curCall = -2; static bool g_atabOverflow = false;
+// (addresses are stored complemented: the table must not look like a set of pointers to the leak detector)
+static void allocHook(const volatile void* p, size_t) { if (!p) return; uintptr_t k = ~(uintptr_t) p; size_t i = (size_t) ((uintptr_t) p >> 4) & (ATAB - 1);
+    for (size_t n = 0; n < 4096; n++, i = (i + 1) & (ATAB - 1)) if (g_atab[i].p == 0 || g_atab[i].p == k) { g_atab[i].p = k; g_atab[i].call = g_curCall; return; }
+    g_atabOverflow = true; }
+static void freeHook(const volatile void*) {}      // an address that is allocated again overwrites its entry; a leaked one is never allocated again
+static long allocCallOf(uintptr_t a) { uintptr_t k = ~a; size_t i = (size_t) (a >> 4) & (ATAB - 1); for (size_t n = 0; n < 4096; n++, i = (i + 1) & (ATAB - 1)) { if (g_atab[i].p == k) return g_atab[i].call; if (g_atab[i].p == 0) break; } return -3; }
+extern "C" const char* __lsan_default_options() { return "exitcode=23:print_suppressions=0:report_objects=1"; }
 extern "C" const char* __ubsan_default_options() { return "print_stacktrace=1"; }
 
 // ----------------------------------------------------------------------------------------------- slots (mirror of the heap model)
@@ -169,7 +184,7 @@ static const char* WKT_CLASS(int i) { return i < 20 ? "ordinary" : i < 41 ? "emp
 // an interesting relative position.  Containers: comb polygons (2..5 teeth; 2 teeth = a U), squares with a grid of holes (rows at y = 80, 50, 20),
 // the same holes in a shell much larger than the frame, nested frames.  Contents: lines / strips / point sets whose vertices are strictly inside
 // every container while their segments cross notches / holes, and some that stay inside.
-struct GenPool { std::vector<std::string> cont, content, all; };
+struct GenPool { std::vector<std::string> cont, content, all, holed; };
 static std::string num(double d) { char b[40]; snprintf(b, sizeof b, "%.10g", d); return b; }
 static std::string ringOf(const std::vector<std::pair<double, double>>& v) { std::string s = "("; for (size_t i = 0; i < v.size(); i++) { if (i) s += ", "; s += num(v[i].first) + " " + num(v[i].second); } return s + ")"; }
 static std::string combRing(int n) {
@@ -203,10 +218,12 @@ static GenPool buildGenPool() {
         "LINESTRING (3 20, 97 20, 97 50, 3 50)", "POINT (3 80)", "LINESTRING (-10 80, 110 80)" };
     for (auto c : C) g.content.push_back(c);
     g.all = g.cont; g.all.insert(g.all.end(), g.content.begin(), g.content.end());
+    for (auto& c : g.cont) { size_t n = 0, q = 0; while ((q = c.find("), (", q)) != std::string::npos) { n++; q += 4; } if (n >= 2) g.holed.push_back(c); }   // at least two holes
     return g;
 }
 static const GenPool& genPool() { static GenPool g = buildGenPool(); return g; }
 // poll numbers at which an armed interruption is requested
+static const long COUNT_ONLY = 1000000;      // an armed k that is never reached: the callback only counts
 static const long KPOOL[] = { 1, 1, 1, 2, 2, 2, 3, 3, 4, 4, 5, 6, 7, 8, 10, 13, 20, 40, 100 };
 // envelope-relative positions for coordinate-like parameters (clip windows, query points)
 static const double FPOOL[] = { -0.25, -0.1, 0.0, 0.05, 0.1, 0.25, 0.4, 0.5, 0.6, 0.75, 0.9, 0.95, 1.0, 1.1, 1.25 };
@@ -496,6 +513,10 @@ struct Exec {
     Ctx c; int out = 1;                       // fd for records
     std::map<int, int> name2slot;             // script result names -> actual slot ids (replay); identity in generation
     std::map<std::string, long> istat;        // interruption statistics
+    long lastPolls = 0;                       // checkpoint polls seen during the last armed call
+    bool leakAttr = false;                    // second pass over a leaking sequence: allocations are tagged with the running call; one marker per call on stderr
+    void leakMark(long no, const std::string& fn, int msgs) { std::string m = "\n@@CALL " + std::to_string(no) + " " + fn + " " + std::to_string(msgs) + "\n";
+        if (write(2, m.data(), m.size()) < 0) _exit(97); }
     void put(const std::string& s) { std::string t = s + "\n"; size_t off = 0; while (off < t.size()) { ssize_t k = write(out, t.data() + off, t.size() - off); if (k <= 0) _exit(97); off += (size_t) k; } }
 
     static std::string tok(const Val& v) {
@@ -548,9 +569,11 @@ struct Exec {
         int ownerOfView = firstObj >= 0 ? c.root(firstObj) : -1;
         g_msgs = 0;
         if (arm > 0) { g_armK = arm; g_polls = 0; g_fired = 0; GEOS_interruptCancel(); GEOS_interruptRegisterCallback(interruptcb); }
+        g_curCall = no;
         Ret r = f.call(c, a);
+        g_curCall = -2;
         int msgs = g_msgs;
-        if (arm > 0) { GEOS_interruptRegisterCallback(nullptr); GEOS_interruptCancel(); g_armK = 0;
+        if (arm > 0) { GEOS_interruptRegisterCallback(nullptr); GEOS_interruptCancel(); g_armK = 0; lastPolls = g_polls;
             istat["interrupt_armed_calls"]++; istat["interrupt_polls_seen"] += g_polls; if (g_polls) istat["interrupt_armed_calls_that_poll"]++;
             if (g_fired) { istat["interrupt_requested"]++; istat[msgs ? "interrupt_ended_with_error_and_message" : "interrupt_absorbed_call_completed"]++; } }
         // ---- effects on the mirror
@@ -585,6 +608,7 @@ struct Exec {
             s.img = im; }
         if (!any) M += "-";
         put("A " + rtok + " m" + (msgs ? "1" : "0") + " " + R + " " + alias + " " + srid + " " + M + (oob ? " O1" : " O0"));
+        if (leakAttr) leakMark(no, f.name, msgs ? 1 : 0);
         return true;
     }
 };
@@ -674,7 +698,7 @@ struct Gen {
                 if (!haveEnv && !triedEnv) { triedEnv = true; int gid = -1; for (size_t q = 0; q < f.spec.size() && gid < 0; q++) if (a[q].k == 'o' && e.c.slots[a[q].id].kind == GEOM) gid = a[q].id;
                     if (gid < 0) for (size_t q = 0; q < f.spec.size() && gid < 0; q++) if (a[q].k == 'o' && e.c.slots[a[q].id].kind == PREP && !e.c.slots[a[q].id].borrows.empty()) gid = e.c.slots[a[q].id].borrows[0];
                     if (gid < 0) { auto cand = liveOf(GEOM, false, {}); if (!cand.empty()) gid = cand[r.below(cand.size())]; }
-                    haveEnv = r.chance(65) && envOf(gid, ex0, ey0, ex1, ey1); if (haveEnv) stat["coord_params_envelope_relative"]++; }
+                    haveEnv = r.chance(envPct) && envOf(gid, ex0, ey0, ex1, ey1); if (haveEnv) stat["coord_params_envelope_relative"]++; }
                 if (haveEnv) { size_t nf = sizeof FPOOL / sizeof FPOOL[0]; bool isx = code == "dx"; size_t& lastI = isx ? lastFx : lastFy;
                     size_t fi = r.below(nf); if (lastI != (size_t) -1 && fi <= lastI && r.chance(85)) fi = std::min(nf - 1, lastI + 1 + r.below(nf - lastI));   // a second x / y is mostly beyond the first: a proper window
                     lastI = fi; double fr = r.chance(15) ? r.unit() * 1.4 - 0.2 : FPOOL[fi];
@@ -703,13 +727,24 @@ struct Gen {
     static Val O(int id) { Val v; v.k = 'o'; v.id = id; return v; }
     static Val I(long i) { Val v; v.k = 'i'; v.i = i; return v; }
     // arm the next call: an interruption is requested at its k-th checkpoint poll
-    void arm() { call1("GEOS_interruptRegisterCallback", {I(KPOOL[r.below(sizeof KPOOL / sizeof KPOOL[0])])}); stat["interrupt_arm_pseudo_calls"]++; }
+    void armAt(long k) { call1("GEOS_interruptRegisterCallback", {I(k)}); stat["interrupt_arm_pseudo_calls"]++; }
+    void arm() { armAt(KPOOL[r.below(sizeof KPOOL / sizeof KPOOL[0])]); }
+    // targeted interruption: the call once with a callback that only counts its polls (k beyond reach), then the same call again interrupted at a
+    // uniformly chosen one of them
+    bool callProbed(const Fn& f, std::vector<Val>& a) {
+        armAt(COUNT_ONLY); e.lastPolls = 0; bool ok = e.doCall(f, a, {}); long P = e.lastPolls;
+        if (ok && P > 0) { stat["interrupt_targeted_calls"]++; armAt(1 + (long) r.below((uint64_t) std::min(P, COUNT_ONLY - 1))); std::vector<Val> b = a; e.doCall(f, b, {}); }
+        return ok;
+    }
+    // armPct: how often the call is interrupted (half blind k from the pool, half targeted)
+    bool callMaybeArmed(const Fn& f, std::vector<Val>& a, int armPct) { if (interruptible(f) && r.chance(armPct)) { if (r.chance(50)) return callProbed(f, a); arm(); } return e.doCall(f, a, {}); }
     bool interruptible(const Fn& f) const { return f.cat == "pred" || f.cat == "constr" || f.cat == "prep" || f.cat == "measure" || f.cat == "mutate" || f.cat == "io" || f.cat == "tree" || f.cat == "create"; }
     int forceGeom = -1;       // pick(): use this object for the first read-only geometry parameter
+    int envPct = 65;          // pick(): how often coordinate-like parameters are placed relative to the envelope of the geometry argument
     // a call of `fn` with arguments chosen by pick(), its first geometry argument being `gid`; armed with probability armPct
     int callOn(const char* fn, int gid, int armPct) { auto it = FNIDX.find(fn); if (it == FNIDX.end()) return -1; const Fn& f = FNS[it->second]; std::vector<Val> a;
-        forceGeom = gid; bool ok = pick(f, a); forceGeom = -1; if (!ok) return -1; if (r.chance(armPct)) arm();
-        size_t before = e.c.slots.size(); if (!e.doCall(f, a, {})) return -1; return e.c.slots.size() > before ? (int) e.c.slots.size() - 1 : -2; }
+        forceGeom = gid; bool ok = pick(f, a); forceGeom = -1; if (!ok) return -1;
+        size_t before = e.c.slots.size(); if (!callMaybeArmed(f, a, armPct)) return -1; return e.c.slots.size() > before ? (int) e.c.slots.size() - 1 : -2; }
     // container / content pair: a prepared container and every prepared / binary predicate and some overlays on the pair
     void scenarioPair() {
         static const char* P[] = {"POLYGON ((0 0, 10 0, 10 10, 7 10, 7 3, 3 3, 3 10, 0 10, 0 0))", "POLYGON ((0 0, 10 0, 10 10, 0 10, 0 0), (2 2, 4 2, 4 4, 2 4, 2 2))",
@@ -723,17 +758,17 @@ struct Gen {
         int pr = call1("GEOSPrepare_r", {O(p)}); if (pr < 0) return;
         static const char* PP[] = {"GEOSPreparedContains_r", "GEOSPreparedContainsProperly_r", "GEOSPreparedCoveredBy_r", "GEOSPreparedCovers_r", "GEOSPreparedCrosses_r", "GEOSPreparedDisjoint_r",
             "GEOSPreparedIntersects_r", "GEOSPreparedOverlaps_r", "GEOSPreparedTouches_r", "GEOSPreparedWithin_r"};
-        for (int round = 0; round < 2; round++) for (auto fn : PP) if (r.chance(75)) { if (r.chance(12)) arm(); call1(fn, {O(pr), O(l)}); }
+        for (int round = 0; round < 2; round++) for (auto fn : PP) if (r.chance(75)) { std::vector<Val> a = {O(pr), O(l)}; callMaybeArmed(FNS[FNIDX[fn]], a, 12); }
         static const char* BP[] = {"GEOSContains_r", "GEOSCovers_r", "GEOSIntersects_r", "GEOSWithin_r", "GEOSCrosses_r", "GEOSTouches_r", "GEOSRelate_r", "GEOSIntersection_r", "GEOSDifference_r", "GEOSSymDifference_r", "GEOSUnion_r",
             "GEOSPreparedRelate_r", "GEOSPreparedNearestPoints_r"};
-        for (auto fn : BP) if (r.chance(35)) { if (r.chance(35)) arm(); bool prep = std::string(fn).rfind("GEOSPrepared", 0) == 0; call1(fn, {O(prep ? pr : p), O(l)}); }
+        for (auto fn : BP) if (r.chance(35)) { bool prep = std::string(fn).rfind("GEOSPrepared", 0) == 0; std::vector<Val> a = {O(prep ? pr : p), O(l)}; callMaybeArmed(FNS[FNIDX[fn]], a, 35); }
         stat["scenario_pair"]++;
     }
     // a container with holes and window / unary operations placed relative to its envelope, many of them interrupted at the k-th poll
     void scenarioWindow() {
-        const GenPool& g = genPool(); int p = call1("GEOSGeomFromWKT_r", {S(g.cont[r.below(g.cont.size())])}); if (p < 0) return;
+        const GenPool& g = genPool(); auto& pool = r.chance(75) ? g.holed : g.cont; int p = call1("GEOSGeomFromWKT_r", {S(pool[r.below(pool.size())])}); if (p < 0) return;
         if (r.chance(50)) call1("GEOSPrepare_r", {O(p)});
-        int n = r.range(3, 7); for (int i = 0; i < n; i++) callOn("GEOSClipByRect_r", p, 60);
+        envPct = 92; int n = r.range(4, 9); for (int i = 0; i < n; i++) callOn("GEOSClipByRect_r", p, 75); envPct = 65;
         static const char* U[] = {"GEOSBuffer_r", "GEOSConvexHull_r", "GEOSMakeValid_r", "GEOSUnaryUnion_r", "GEOSPointOnSurface_r", "GEOSisValid_r", "GEOSBoundary_r", "GEOSSimplify_r", "GEOSPreparedContainsXY_r", "GEOSNode_r", "GEOSBuildArea_r",
             "GEOSMaximumInscribedCircle_r", "GEOSGetCentroid_r", "GEOSisSimple_r", "GEOSDelaunayTriangulation_r", "GEOSPolygonize_full_r"};
         for (auto fn : U) if (r.chance(30)) callOn(fn, p, 60);
@@ -766,8 +801,7 @@ struct Gen {
                 long w = (long) r.below((uint64_t) total); size_t k = 0; while (w >= FNS[k].weight) { w -= FNS[k].weight; k++; }
                 const Fn& f = FNS[k]; std::vector<Val> a;
                 if (!pick(f, a)) continue;
-                if (interruptible(f) && r.chance(10)) arm();
-                if (e.doCall(f, a, {})) { break; }
+                if (callMaybeArmed(f, a, 10)) { break; }
             }
             // keep the pool bounded: free some buffers / old geometries
             int live = 0; for (auto& s : e.c.slots) if (s.live && s.owner < 0) live++;
@@ -858,8 +892,35 @@ static std::string whereOf(const std::string& err, size_t from, bool withCaller 
     return "";
 }
 
-static std::string classifyStderr(const std::string& err) {
-    if (err.find("LeakSanitizer: detected memory leaks") != std::string::npos) return "leak@" + whereOf(err, err.find("LeakSanitizer: detected memory leaks"), true);
+// second pass: "where:path@fn" of the leak to report ("" if this run shows no leak).  where = allocating GEOS function "<" its GEOS caller;
+// path says how the call that allocated the leaked object ended; fn is that call.  A leak on the normal path is reported before one on an error path.
+static std::string attributeLeak(const std::string& err) {
+    std::map<long, std::pair<std::string, int>> calls; size_t p = 0; const std::string MK = "\n@@CALL ";
+    while ((p = err.find(MK, p)) != std::string::npos) { size_t eol = err.find('\n', p + 1); if (eol == std::string::npos) break; auto w = words(err.substr(p + MK.size(), eol - p - MK.size()));
+        if (w.size() >= 3) calls[std::stol(w[0])] = {w[1], atoi(w[2].c_str())}; p = eol; }
+    size_t x = err.find("\n@@CALL -1 EXIT"); if (x == std::string::npos) return ""; size_t y = err.find("\n@@ENDREPORT", x); if (y == std::string::npos) return "";
+    std::string sec = err.substr(x, y - x);
+    std::map<std::string, long> allocCall; { size_t q = 0; while ((q = sec.find("\n@@ALLOC 0x", q)) != std::string::npos) { size_t eol = sec.find('\n', q + 1); auto w = words(sec.substr(q + 1, eol - q - 1)); if (w.size() == 3) allocCall[w[1]] = std::stol(w[2]); q = eol; } }
+    std::string best; int bestRank = 9; size_t q = 0;
+    while ((q = sec.find("Direct leak of", q)) != std::string::npos) {
+        size_t e = sec.find("\n\n", q); std::string blk = sec.substr(q, e == std::string::npos ? e : e - q + 1); std::string w = whereOf(blk, 0, true);
+        // the objects of this block
+        std::string path = "unattributed", fn = "?"; int rank = 3;
+        size_t o = e == std::string::npos ? e : sec.find("Objects leaked above:", e); size_t nextBlk = sec.find(" leak of", q + 14);
+        if (o != std::string::npos && (nextBlk == std::string::npos || o < nextBlk)) { size_t oe = sec.find("\n\n", o); std::string objs = sec.substr(o, oe == std::string::npos ? oe : oe - o); std::istringstream is(objs); std::string l;
+            while (std::getline(is, l)) { if (l.rfind("0x", 0) != 0) continue; auto it = allocCall.find(l.substr(0, l.find(' '))); if (it == allocCall.end()) continue;
+                auto c = calls.find(it->second); int rk; std::string pa, f2;
+                if (c == calls.end()) { rk = 1; pa = "outside-calls"; f2 = "END"; } else { rk = c->second.second ? 2 : 0; pa = c->second.second ? "on-error-path" : "on-normal-path"; f2 = c->second.first; }
+                if (rk < rank) { rank = rk; path = pa; fn = f2; } } }
+        std::string c = w + ":" + path + "@" + fn; if (rank < bestRank || (rank == bestRank && c < best)) { best = c; bestRank = rank; }
+        q += 14; }
+    return best;
+}
+
+static std::string classifyStderr(const std::string& err0) {
+    std::string err = err0;
+    if (err.find("\n@@CALL ") != std::string::npos) { std::string a = attributeLeak(err); if (!a.empty()) return "leak@" + a; }
+    if (err.find("LeakSanitizer: detected memory leaks") != std::string::npos) return "leak@" + whereOf(err, err.find("LeakSanitizer: detected memory leaks"), true) + ":unattributed";
     size_t p = err.find("AddressSanitizer: ");
     if (p != std::string::npos) { size_t q = p + 18; size_t e = q; while (e < err.size() && (isalnum((unsigned char) err[e]) || err[e] == '-' || err[e] == '_')) e++; std::string k = err.substr(q, e - q);
         if (k == "allocation-size-too-big" || k == "out-of-memory" || k == "requested" || k == "calloc-overflow" || k == "allocator" || k == "failed") return "oom";
@@ -885,7 +946,7 @@ static double cpuSeconds(pid_t pid) {
     if (w.size() < 13) return -1; return (double) (std::stoull(w[11]) + std::stoull(w[12])) / (double) sysconf(_SC_CLK_TCK);
 }
 
-static ChildResult runChild(const std::function<void(Exec&, std::map<std::string, long>&)>& body, double perCallTimeout, std::map<std::string, long>& stat) {
+static ChildResult runChild1(const std::function<void(Exec&, std::map<std::string, long>&)>& body, double perCallTimeout, std::map<std::string, long>& stat, bool leakAttr) {
     ChildResult res; int pfd[2]; if (pipe(pfd) != 0) { perror("pipe"); exit(3); }
     char errPath[64]; snprintf(errPath, sizeof errPath, "/tmp/c12-err-%d-XXXXXX", (int) getpid()); int efd = mkstemp(errPath);
     fflush(nullptr);                  // the child must not inherit unflushed stdio buffers (it exits through exit())
@@ -893,7 +954,8 @@ static ChildResult runChild(const std::function<void(Exec&, std::map<std::string
     if (pid == 0) {
         close(pfd[0]); dup2(efd, 2); close(efd);
         struct rlimit rl; rl.rlim_cur = rl.rlim_max = 0; setrlimit(RLIMIT_CORE, &rl);
-        Exec e; e.out = pfd[1];
+        Exec e; e.out = pfd[1]; e.leakAttr = leakAttr;
+        if (leakAttr) __sanitizer_install_malloc_and_free_hooks(allocHook, freeHook);
         e.c.h = GEOS_init_r(); GEOSContext_setNoticeHandler_r(e.c.h, noticeh); GEOSContext_setErrorHandler_r(e.c.h, errorh);
         std::map<std::string, long> st;
         body(e, st);
@@ -902,6 +964,19 @@ static ChildResult runChild(const std::function<void(Exec&, std::map<std::string
         for (auto& kv : st) e.put("S " + kv.first + " " + std::to_string(kv.second));
         e.put("Z");
         close(pfd[1]);
+        if (leakAttr) {   // the leak report now, into a file; then "@@ALLOC <address> <call>" for every leaked object it lists
+            e.leakMark(-1, "EXIT", 0);
+            char tp[64]; snprintf(tp, sizeof tp, "/tmp/c12-lk-%d-XXXXXX", (int) getpid()); int tfd = mkstemp(tp); int save = dup(2);
+            if (tfd >= 0 && save >= 0) { dup2(tfd, 2); __lsan_do_recoverable_leak_check(); dup2(save, 2); close(save);
+                std::string rep; { lseek(tfd, 0, SEEK_SET); char tmp[65536]; ssize_t k; while ((k = read(tfd, tmp, sizeof tmp)) > 0) rep.append(tmp, (size_t) k); } close(tfd); unlink(tp);
+                std::string outp = rep + "\n"; size_t q = 0;
+                while ((q = rep.find("\n0x", q)) != std::string::npos) { size_t eol = rep.find('\n', q + 1); std::string l = rep.substr(q + 1, eol == std::string::npos ? eol : eol - q - 1); q += 1;
+                    if (l.find(" bytes)") == std::string::npos) continue; uintptr_t a = (uintptr_t) std::stoull(l.substr(2), nullptr, 16);
+                    outp += "@@ALLOC " + l.substr(0, l.find(' ')) + " " + std::to_string(allocCallOf(a)) + "\n"; }
+                if (g_atabOverflow) outp += "@@ALLOC-TABLE-OVERFLOW\n";
+                outp += "@@ENDREPORT\n";
+                if (write(2, outp.data(), outp.size()) < 0) _exit(97); }
+        }
         exit(0);                       // runs LeakSanitizer
     }
     close(pfd[1]); close(efd);
@@ -944,8 +1019,23 @@ static ChildResult runChild(const std::function<void(Exec&, std::map<std::string
     if (!callFail.empty()) { if (!pendingFlag.empty() && callFail.rfind("crash", 0) == 0) callFail = "crash:oob-index@"; line += " ; " + pendingB + " => X:" + callFail; res.failedCallNo = pendingNo; }
     line += " ; END " + endc;
     res.line = line; res.endClass = !callFail.empty() ? callFail : endc; res.ncalls = (int) done.size();
+    { size_t x = err.find("\n@@CALL -1 EXIT"); if (x != std::string::npos) err = err.substr(x); }
     res.stderrTail = err.size() > 6000 ? err.substr(0, 6000) : err;
     return res;
+}
+
+// a sequence that ends with a leak report runs a second time with a leak check after every call (attribution to a call and its outcome)
+static ChildResult runChild(const std::function<void(Exec&, std::map<std::string, long>&)>& body, double perCallTimeout, std::map<std::string, long>& stat) {
+    std::map<std::string, long> st1; ChildResult r = runChild1(body, perCallTimeout, st1, false);
+    if (r.endClass.rfind("leak@", 0) == 0 && r.failedCallNo < 0) {
+        // (some operations are not deterministic on non-finite input — containers ordered by address — so the second pass may differ: try a few times)
+        bool done = false;
+        for (int attempt = 0; attempt < 3 && !done; attempt++) { std::map<std::string, long> st2; ChildResult r2 = runChild1(body, perCallTimeout, st2, true);
+            if (getenv("C12_DEBUG")) fprintf(stderr, "[pass2] endClass=%s ncalls=%d/%d failed=%ld\n%s\n", r2.endClass.c_str(), r2.ncalls, r.ncalls, r2.failedCallNo, r2.stderrTail.c_str());
+            if (r2.endClass.rfind("leak@", 0) == 0 && r2.endClass.find(":unattributed") == std::string::npos && r2.failedCallNo < 0 && r2.ncalls == r.ncalls) { r = r2; done = true; } }
+        st1[done ? "leak_sequences_attributed" : "leak_sequences_not_reproduced_in_second_pass"]++; }
+    for (auto& kv : st1) stat[kv.first] += kv.second;
+    return r;
 }
 
 int main(int argc, char** argv) {
